@@ -1,6 +1,6 @@
 //! C05: concurrent readers against committing threads and the four background workers.
 //!
-//! Three kinds of cases, chosen by `seed % 4`:
+//! Four kinds of cases, chosen by `seed % 6` (4 | 5: deep queue with diverged commit / record ids, see `deepqueue`):
 //!   0 | 1  threaded stress on the real `Db` WITH background threads: one writer bumps a version
 //!          in ALL keys of a small set per transaction (value sizes move the entries between
 //!          size tiers, incl. multipart), a filler thread inserts new keys into the same index
@@ -767,13 +767,158 @@ fn handover(seed: u64, root: &Path, t: &mut Trace, ctr: &mut Counters, prop: &st
 	ok
 }
 
+// ------------------------------------------------------------------------------------------
+// (iv) deep queue with diverged ids: commit ids and log record ids are separate counters; they
+// drift apart when something other than a commit consumes a record id (reindex batches, replay at
+// open). The case first makes them differ by d = 1..3 (index growth + reindex records, or a crash
+// image reopened with pending log records), then queues 3..12 transactions that all write the same
+// keys and steps the pipeline one call at a time, reading every key after every call: every read
+// must return the LAST committed version whatever stage the transactions are in.
+
+fn deepqueue(seed: u64, root: &Path, t: &mut Trace, ctr: &mut Counters, prop: &str) -> bool {
+	let mut rng = Rng::new(seed);
+	let nkeys = rng.range(2, 6) as usize;
+	let spread = *rng.pick(&[1u64, 1, 2]);
+	let via_crash = rng.chance(1, 2);
+	t.begin_case(&format!("seed={} deepqueue keys={} spread={} divergence={}", seed, nkeys, spread, if via_crash { "replay" } else { "reindex" }));
+	let dir = fresh_dir(root, &format!("c05-dq-{}", seed));
+	let mut db = Db::open_or_create(&options(&dir, false, 1)).expect("create");
+	let keys: Vec<[u8; 32]> = (0..nkeys).map(|i| hot_key(5, i as u64)).collect();
+	let mut v = 0u64;
+	let mut ok = true;
+	let mut bump = |db: &Db, v: &mut u64| {
+		*v += 1;
+		db.commit((0..nkeys).map(|i| (0u8, keys[i].to_vec(), Some(enc(*v, i, spread))))).unwrap();
+	};
+	let check = |db: &Db, v: u64, what: &str, t: &mut Trace, ctr: &mut Counters| -> bool {
+		let mut good = true;
+		for i in 0..nkeys {
+			let got = db.get(0, &keys[i]).unwrap();
+			let size = db.get_size(0, &keys[i]).unwrap();
+			ctr.inc("deepqueue.reads");
+			let want = enc(v, i, spread);
+			if got.as_ref() != Some(&want) || size != Some(want.len() as u32) {
+				t.oracle_fail(
+					prop,
+					&format!("deepqueue [{}]: key {} expected version {} got {:?} (size {:?})", what, i, v, got.as_ref().map(|b| dec(b, i, spread)), size),
+				);
+				good = false;
+			}
+		}
+		good
+	};
+	// phase 1: make the counters differ
+	if via_crash {
+		// d records in flushed log files, crash image, reopen: replay consumes record ids 1..d,
+		// the commit counter of the new handle starts again
+		let d = rng.range(1, 3);
+		for _ in 0..d {
+			bump(&db, &mut v);
+			db.process_commits().unwrap();
+		}
+		db.flush_logs().unwrap();
+		let img = root.join(format!("c05-dq-{}-img", seed));
+		let _ = std::fs::remove_dir_all(&img);
+		copy_dir(&dir, &img);
+		drop(db);
+		let _ = std::fs::remove_dir_all(&dir);
+		std::fs::rename(&img, &dir).unwrap();
+		let _ = std::fs::remove_file(dir.join("lock"));
+		db = Db::open(&options(&dir, false, 1)).expect("recovery");
+		ctr.inc("deepqueue.divergence.replay");
+	} else {
+		// 65+ keys of one index chunk: growth; every process_reindex call that finds work writes a record
+		bump(&db, &mut v);
+		db.commit((0..70u64).map(|id| (0u8, hot_key(6, id).to_vec(), Some(filler_value(id))))).unwrap();
+		for _ in 0..3 {
+			step_all(&db).unwrap();
+		}
+		let batches = rng.range(1, 3);
+		for _ in 0..batches {
+			db.process_reindex().unwrap();
+			if rng.chance(1, 2) {
+				db.flush_logs().unwrap();
+				db.enact_logs().unwrap();
+				db.clean_logs().unwrap();
+			}
+		}
+		ctr.inc("deepqueue.divergence.reindex");
+	}
+	ok &= check(&db, v, "after divergence", t, ctr);
+	// phase 2: deep queue on the same keys, one pipeline call at a time
+	let rounds = rng.range(1, 3);
+	for round in 0..rounds {
+		let depth = rng.range(3, 12);
+		for _ in 0..depth {
+			bump(&db, &mut v);
+		}
+		ok &= check(&db, v, &format!("round {} queued {}", round, depth), t, ctr);
+		let mut processed = 0;
+		let mut guard = 0;
+		while processed < depth && guard < 200 {
+			guard += 1;
+			match rng.below(10) {
+				0..=5 => {
+					db.process_commits().unwrap();
+					processed += 1;
+					ctr.inc("deepqueue.process");
+					ok &= check(&db, v, &format!("round {} processed {}/{}", round, processed, depth), t, ctr);
+				},
+				6 => {
+					db.flush_logs().unwrap();
+					ok &= check(&db, v, &format!("round {} flush", round), t, ctr);
+				},
+				7 => {
+					db.flush_logs().unwrap();
+					db.enact_logs().unwrap();
+					ok &= check(&db, v, &format!("round {} enact", round), t, ctr);
+				},
+				8 => {
+					db.clean_logs().unwrap();
+					db.process_reindex().unwrap();
+					ok &= check(&db, v, &format!("round {} clean+reindex", round), t, ctr);
+				},
+				_ => {
+					// one more transaction while the queue drains
+					bump(&db, &mut v);
+					ok &= check(&db, v, &format!("round {} extra commit", round), t, ctr);
+					db.process_commits().unwrap();
+					ok &= check(&db, v, &format!("round {} extra commit, one processed", round), t, ctr);
+				},
+			}
+			if !ok {
+				break
+			}
+		}
+		for _ in 0..(depth + 4) {
+			step_all(&db).unwrap();
+		}
+		ok &= check(&db, v, &format!("round {} drained", round), t, ctr);
+		if !ok {
+			break
+		}
+	}
+	drop(db);
+	let db = Db::open(&options(&dir, false, 1)).expect("reopen");
+	ok &= check(&db, v, "reopened", t, ctr);
+	drop(db);
+	let _ = std::fs::remove_dir_all(&dir);
+	ctr.inc("cases.deepqueue");
+	t.end_case(true);
+	ok
+}
+
 pub fn run(seeds: &[u64], thorough: bool, root: &Path, t: &mut Trace, ctr: &mut Counters, prop: &str) -> u64 {
 	let mut fails = 0;
-	for s in seeds.iter().copied() {
-		let ok = match s % 4 {
+	for (i, s) in seeds.iter().copied().enumerate() {
+		// a run of several cases covers every kind in turn (the adjusted seed is the one printed, so
+		// `--case-seed` replays it)
+		let s = if seeds.len() > 1 { s - (s % 6) + (i as u64 % 6) } else { s };
+		let ok = match s % 6 {
 			0 | 1 => stress(s, thorough, root, t, ctr, prop),
 			2 => f11(s, root, t, ctr, prop),
-			_ => handover(s, root, t, ctr, prop),
+			3 => handover(s, root, t, ctr, prop),
+			_ => deepqueue(s, root, t, ctr, prop),
 		};
 		ctr.inc("cases");
 		if !ok {
